@@ -19,6 +19,10 @@ def main():
     except ValueError:
         seed = 0
     os.environ.setdefault("PDFMINER_VERIF", "1")
+    if os.environ.get("VERIF_COVERAGE"):
+        from . import cov
+        os.environ.setdefault("VERIF_COVERAGE_TAG", a.pid.upper())
+        cov.start()
     mod = importlib.import_module("harness.props." + a.pid.lower())
 
     def go():
